@@ -194,7 +194,7 @@ Section Sem.
   Variable key_eqb : list value -> list value -> bool.
   Variable distinct_sel : list row -> list nat.
   Variable ost_sel : list (list value) -> list Z -> option value -> list nat.
-  Variable tvf_sem : name -> list (name * value) -> list (name * name) -> list row.
+  Variable tvf_sem : name -> list (name * value) -> list (name * name) -> option (schema * list row) -> list row.
 
   Notation eval := (eval fn_sem assert_sem cast_sem other_sem).
   Notation evals := (evals fn_sem assert_sem cast_sem other_sem).
@@ -302,6 +302,7 @@ Section Sem.
       apply in_map_iff in Hin. destruct Hin as [x [<- _]]. rewrite replace_nth_length. eauto.
     - apply andb_true_iff in Hs. destruct Hs as [Hs1 Hs2]. apply schema_eqb_eq in Hs1. subst s.
       apply select_In in Hin. eauto.
+    - apply filter_In in Hin. destruct Hin as [_ Hl]. apply Nat.eqb_eq in Hl. exact Hl.
     - apply filter_In in Hin. destruct Hin as [_ Hl]. apply Nat.eqb_eq in Hl. exact Hl.
   Qed.
 End Sem.
